@@ -180,7 +180,9 @@ func (s *Service) parseAddress(address string) error {
 
 	switch s.protocol {
 	case "unix":
-		break
+		if s.address == "" {
+			return fmt.Errorf("Invalid address")
+		}
 	case "tcp":
 		break
 
@@ -245,7 +247,9 @@ func (s *Service) Bind(ctx context.Context, address string) error {
 	}
 	s.mutex.Unlock()
 
-	s.parseAddress(address)
+	if err := s.parseAddress(address); err != nil {
+		return err
+	}
 
 	err := s.setListener(ctx)
 	if err != nil {
